@@ -172,11 +172,14 @@ struct Shm
   volatile int           in_trial;
   volatile int           hist_len;
   volatile int           fkind;      // kind of the fault point about to be triggered, or -1
+  volatile int           aux;        // world specific (W2: initial allocator id of B)
   Op                     hist[64];
   Op                     op;
 };
 
 inline Shm *& shm_ptr () { static Shm *p = 0; return p; }
+
+inline int& shm_aux () { static int a = 0; return a; }
 
 inline void shm_publish (std::uint64_t seq, const History& h, const Op& op, int fkind = -1)
 {
@@ -191,6 +194,7 @@ inline void shm_publish (std::uint64_t seq, const History& h, const Op& op, int 
     s->hist[k] = h[static_cast<std::size_t> (k)];
   s->op = op;
   s->fkind = fkind;
+  s->aux = shm_aux ();
   s->in_trial = 1;
 }
 
@@ -208,6 +212,7 @@ struct CrashRec
   Op            op;
   std::string   how;     // "terminate", "signal 11", "hang", ...
   int           fkind;   // kind of the injected fault, or -1
+  int           idb;     // W2: initial allocator id of B
   // Crash class: later trials of the same (operation kind, iterator kind, fault kind) are not run
   // again (each would cost a full re-exploration); they are counted as skipped.
   long cls () const { return crash_class (op, fkind); }
@@ -317,6 +322,7 @@ int supervise (Runner& runner, const Options& opt)
       c.hist.push_back (s->hist[k]);
     c.op = s->op;
     c.fkind = s->fkind;
+    c.idb = s->aux;
     if (hung)
       c.how = "hang";
     else if (WIFEXITED (status) && WEXITSTATUS (status) == 3)
